@@ -27,6 +27,21 @@ def c16Step (args : List String) : String :=
       match r with
       | none => panicked
       | some v => ok (showVec v)
+  | "interp_alias" :: variant :: rest =>
+    -- x and tgt are windows of one buffer in the executor; the model sees the values only (aliasing is invisible)
+    if variant != "chk" && variant != "unc" then badOp else
+    withArgs (do
+      let m ← c16Mode
+      let xa ← pNat; let n ← pNat; let tb ← pNat; let k ← pNat
+      let buf ← pVec; let y ← pVec
+      pure (m, xa, n, tb, k, buf, y)) rest fun (m, xa, n, tb, k, buf, y) =>
+      if xa + n > buf.length ∨ tb + k > buf.length then badOp else
+      let x := (buf.drop xa).take n
+      let t := (buf.drop tb).take k
+      let r := if variant == "chk" then interpChecked x y t m else interpUnchecked x y t m
+      match r with
+      | none => panicked
+      | some v => ok (showVec v)
   | _ => badOp
 
 def main (args : List String) : IO UInt32 := mainWith () (fun _ t => ((), c16Step t)) args
